@@ -360,7 +360,9 @@ fn det_key(rng: &mut Rng, ed: bool) -> CombinedKey {
     }
 }
 
-pub fn make_pool(seed: u64) -> Vec<PoolRec> {
+/// Builds fresh records (maintenance, `--print-pool`): secp256k1 signing inside the enr crate draws
+/// from the OS random generator, so the run-time pool is the frozen output of one such build.
+pub fn build_pool(seed: u64) -> Vec<PoolRec> {
     let mut rng = Rng::new(seed.wrapping_mul(0x9E3779B97F4A7C15) ^ 0xC06);
     let mut pool = vec![];
     for i in 0..14usize {
@@ -401,7 +403,25 @@ pub fn make_pool(seed: u64) -> Vec<PoolRec> {
                 }
             }
             rng.next();
-            found.expect("a record with filler fits")
+            let (mut e, n) = found.map(|e| (e, 0usize)).expect("a record with filler fits");
+            let _ = n;
+            // the builder's size test is conservative by a few bytes; `insert` tests the exact
+            // size, so grow the filler until the record has exactly MAX_ENR_SIZE bytes (or, for
+            // some records, one or two bytes less)
+            let cur = match e.get_decodable::<alloy_rlp::Bytes>("zfill") {
+                Some(Ok(b)) => b.len(),
+                _ => 0,
+            };
+            let slack = i % 3; // 0: exactly the maximum
+            for d in (1..=12usize).rev() {
+                let v = alloy_rlp::Bytes::from(rng.bytes(cur + d));
+                let mut e2 = e.clone();
+                if e2.insert("zfill", &v, &key).is_ok() && e2.size() + slack <= 300 {
+                    e = e2;
+                    break;
+                }
+            }
+            e
         } else {
             build(None, &mut rng).expect("record builds")
         };
@@ -409,6 +429,38 @@ pub fn make_pool(seed: u64) -> Vec<PoolRec> {
         pool.push(PoolRec { enr, bytes });
     }
     pool
+}
+
+/// Real signed records built once with the enr crate by `build_pool` (12 secp256k1, 2 ed25519
+/// keys; with and without ip4/ip6/udp/tcp fields; sequence numbers 1 .. 2^64-1; sizes 127..171
+/// and 298..300 bytes = MAX_ENR_SIZE).  Frozen so that every case is byte-for-byte reproducible.
+pub const FIXED_POOL: &[&str] = &[
+    "f892b8407377de61ed734f73ea93a60df3f34c81f6567d278792b8a8b21ed8eb7d4407dc409cf972780ff446ff1920f0d7e50c7b6c32c3cf7252bbbcd94e759df5957dbd01826964827634836970369020010db800000000000000000000000189736563703235366b31a102727afea0342cb77beff48a033f7c499c526781c9f2ff4bee564548a9bfd97cf78475647036822329",
+    "f88cb8407332cf7c55e998aed23c4c372de2d1fa7fcc6e17870e2588dc4293bb2736fbc060c0b4443e2467670d43541ab7442a906dc49311c33a7033765ce8dd945eb6bf8180826964827634826970840a11010289736563703235366b31a1030e20f58d6f6622a8abc153d7d5153e86447ac69b49dd0d32436f10f6a88a61738374637082765f83756470822329",
+    "f88ab840eec57c06f19fb9b8f400a430ddabdca041950feefe1e0725803638cfbddd7bf32aa341e72bbdbcfddc842a57a95ec2d8e82a3d1ad14ce44b855438075aecf42886010000000000826964827634826970840a22020389736563703235366b31a1020677339191b9699e49fc63aec18bb4327991d62eb47db3a8eb22e72136cf456d8375647082232a",
+    "f8a9b8409e8d33e1381571696fb831eece2b949f186d5b1b6ae13d9bbeac0271c17099547d49edc0921e3b309c2a798ef759481cbcebc4d891c6f2c82e2055b9db851b0b88fffffffffffffffc826964827634826970840a330004836970369020010db800000000000000000003000189736563703235366b31a103a83a83c5eab8dbbbe1109c7b32a0761e887edd097bea7611aba770997a2bc3198375647082232b8475647036822329",
+    "f881b8405895c26ada21ab372a8ea9a497525d9fcf228f4f61513ba64c47448cebb87d8c7cd6f8c2e2df510bbc66132e3a1ce1b8afda76e8072707401a4d661647d51501018765643235353139a062ecf55365ee9d8cb732d9e63df26054697f9f544ca5ff7524448ad192c88fc8826964827634826970840a4401058375647082232c",
+    "f88cb840becf44e17d4716ac7240446a39dc177eb03bde7b0a9170bb26cd39e2c9e088680fee3d52ffc99d0d6dcbf4bbb8e9f7539114a4f9024464d2421b6bd5c18c57c48184826964827634826970840a55020689736563703235366b31a1024b1629c6b19f2e067f84403261242acfb9f912dc01f4797b7525077ab5a7ecf48374637082765f8375647082232d",
+    "f8a7b840b7042c567542c08035daef1c50c598a1f9be622cd270621b3525dac9b50fecea229dfd7df80251dffe972e1d901ba47c5d0ef4ad828e7d9c5c38b2a12980c27586010000000000826964827634826970840a660007836970369020010db800000000000000000006000189736563703235366b31a103939bdf0528cb855fab533d8b7f89c61e7e323844689774200a8b7646553202f78375647082232e8475647036822329",
+    "f87db840d2d56d7304c58f384189c69d0c54fefcc8b5a79156669d466b186aabf722313f135e5975225c5c6497a3680d336c5eff626340bbf024af53321bab1e51d34b1388fffffffffffffff882696482763489736563703235366b31a1035b03fb46d62f910332828a76e0c6a5750a5f6ee68b45fc5b87a0ba0b8d9f90c8",
+    "f90127b8400918fc03ef373524e4809e0e03ac5508d3535062b479ac8f2cfe6eceea5c7eb96279987ee08bf602345eaef55628aaa78e7b60237acde817b847802ccbb4e94b02826964827634826970840a88020989736563703235366b31a1036301001c4e89657cb4430fc473cdd04898824c3df40e302f3c050938a830211383756470822330857a66696c6cb89b796116072be4e4fd237476fda11d522bb59b8a3b5d1b2ab63bca26e095992a8cd76db89bfa95728eed75fa29725554bcbaf8db30a807336d2c9fdb283b178fc4968ee42288e876b0bfe2eaa7d6f408b907986802391707c72b7f88615751b7564b5a968040feff8d5f505aa89440d64b41f465d4fb6b9dacabd0e4bdb33309f2ca2b3f5ee896c34441dfcca3b313f71fd96cb533f637e6742cfba6",
+    "f90129b840862e1f3ac32fbe9ed57a3f91b6fab4b220f4a811fe18264d19008fa8fd3117602a1da1f703a7fd10c948c098c86ef6710da5c92a3b34cdcbef3cf777e9617a0a81898765643235353139a0a2ef7f39ce849adcd43c7737c41eb079aebb6184f2fd0eeb9ef15dee67dda086826964827634826970840a99000a836970369020010db80000000000000000000900018374637082765f837564708223318475647036822329857a66696c6cb87b5d55b35fae323fdfb910aa0363847dbd55fb143191d016c3754075b13e45eb4e107dd77eab1869cd9e8c4486e1301fd6b83cf2476e1c6891f3ed6da656f15d0a9c55bb02c5a15a0f15c2f11585d3daf4290aa5240a9e825812c1d2f39a3fba22ae9621135552a2e4aa8eea057dc0c8cd2abee1af9ba85b7c199b83",
+    "f90128b840c7777b0aa9f2a317e4f9907b610c778022c2ce60c3fdc3f9866ec2f94a1f3dd54d442ab271fc6c6ba34d8626b600bc9e899e6aaa414679027009f9c26e40f22986010000000001826964827634826970840aaa010b89736563703235366b31a10331377bf90b6e68878f22498e21d44a49c127e22bb21593ce828a577b74a9694283756470822332857a66696c6cb896e0282d5f5c065c6c337e0a13a1e527dbc3b0b82d77d1b3b6a48a65cfd44390f4562bb4c85d98df8ad6c0e889fb9831207ec7e58d348c6ddbb19c19534f6e656c3401f112fa71eecfe691fe25175fb8629739c06ad9cd5fb536d23893d8d5b7a9fdbb981529e01abf02faca7e5392419127143c0a9a7ffd8b8675b7d386ed8ca874ac7f2660e5017fcfa64c31e184e74efb6ff12a88f1",
+    "f90127b840eeb3dc16c6ffb6c5ffd4d7b373637552ccdf3dda7c3f2aad50d479378e037e4e73e55ca6c6463a18640277f8da55f6a4526a8824c616ed7febeef9b7cd56b97588fffffffffffffff5826964827634826970840abb020c89736563703235366b31a102d2de3cc5cadc545b5c7ffddf18d64164bb2ea6d406d780af53472b21a565db8a83756470822333857a66696c6cb893ecab4d6694aeca954e01e3e3abfacf8b6bb5b1616e5020a78e27b31375cfb0bb46002d936f1f08ca31226c58f4c2ab82c21fada301cf6255400e8b620ae125c19dc395d0065af47026b49a12ee54b13b803185e6d6572bcd9c6d008d8f99c23585d9c4ee01bcbd859dcc52dd138a9f6c798b3351524ce2bb62d1b1dcb3f828e10467310b86ec87d832b112a53182b12d82b86b",
+    "f90129b840b3a0e03ab816fcb5d5769a01e16c7722d477779fe40ad2f673b5482f8e77ab2c45c190be1e526f69976d0cabb88071f9b9667c214109ef83caf34beb3fdd301502826964827634826970840acc000d836970369020010db80000000000000000000c000189736563703235366b31a103bb13bc6edf8de655b4f26c352b9b7f279c1c368a2ea3a9c2f2f331bc373e4707837564708223348475647036822329857a66696c6cb8800b782dfd2f9f17a3a2ff8262bdc598a2b6f5447e07bed6167638245b77f467b4697f251ecdb0f07f513b7162e5c685e15344bb3184e9b3427056197256890843716b90f888446045a88ab29cd8eb6c97afec49664abf1731fbf5722ac34286f01dc9b76a65b91b6505aa2e0a9f69d90abc447f8a03c7afbf69d630331b9be1f7",
+    "f90128b840db6bad7456a348cf1ab7644d1b7b68de22f45f0599dbb9efd299741c69d5efcc2e0950fece9303a783cc8ed02de04df070b5da48c5011035304bd233ea095aa6818d826964827634826970840add010e89736563703235366b31a103e502ac12afdf62359c575fe551e3ae1a34a00d5800c6f6865ca3f68be539f2858374637082765f83756470822335857a66696c6cb894038705252a59bacd8778f6d0e96544a752a79f288d2cec72715cff28866c7629affa8768e334efa31ecd322430a434d49699d4945b18a5e1ec8e85b68bf8a1ec56685b7a3fb0a8618b2856f00c97d89abbdede202c3d5b9edfb46207572496a5c5f3959f53202d5987ef77cc6e67aa2d7ef524a7bb1e3c7a521b58c0f062193c5e4ef924b6c3a54fe9a2ed8ecc458c40189ea27f",
+];
+
+pub fn make_pool() -> Vec<PoolRec> {
+    FIXED_POOL
+        .iter()
+        .map(|h| {
+            let bytes = hex::decode(h).expect("pool hex");
+            let enr = Enr::decode(&mut &bytes[..]).expect("pool record decodes");
+            assert_eq!(enr_bytes(&enr), bytes, "pool record is canonical");
+            PoolRec { enr, bytes }
+        })
+        .collect()
 }
 
 fn rbytes(rng: &mut Rng, lo: u64, hi: u64) -> Vec<u8> {
@@ -481,7 +533,7 @@ pub fn gen_u64(rng: &mut Rng) -> u64 {
 }
 
 pub fn gen_blob(rng: &mut Rng, hist: &mut Hist, big: bool) -> Vec<u8> {
-    let n = match rng.below(20) {
+    let n = match if big { 19 } else { rng.below(19) } {
         0 => 0,
         1 | 2 => 1,
         3..=9 => rng.range(2, 54) as usize,
@@ -492,11 +544,8 @@ pub fn gen_blob(rng: &mut Rng, hist: &mut Hist, big: bool) -> Vec<u8> {
         14..=16 => rng.range(58, 200) as usize,
         17 | 18 => rng.range(200, 400) as usize,
         _ => {
-            if big {
-                rng.range(400, 1100) as usize
-            } else {
-                rng.range(2, 54) as usize
-            }
+            let r = rng.range(400, 1100) as usize;
+            *rng.pick(&[401usize, 700, 1000, 1099, 1100, r])
         }
     };
     hist.add(&format!(
@@ -674,11 +723,11 @@ pub fn gen_msg(rng: &mut Rng, hist: &mut Hist, pool: &[PoolRec], bad_ok: bool, t
         }
         4 => Message::Response(Response { id, body: ResponseBody::Nodes { total: gen_u64(rng), nodes: gen_records(rng, hist, pool) } }),
         5 => {
-            let big = rng.chance(1, 6);
+            let big = rng.chance(1, 9);
             Message::Request(Request { id, body: RequestBody::Talk { protocol: gen_blob(rng, hist, false), request: gen_blob(rng, hist, big) } })
         }
         _ => {
-            let big = rng.chance(1, 6);
+            let big = rng.chance(1, 9);
             Message::Response(Response { id, body: ResponseBody::Talk { response: gen_blob(rng, hist, big) } })
         }
     };
@@ -730,7 +779,9 @@ pub fn mutate(rng: &mut Rng, w: &mut Wire, pool: &[PoolRec]) -> (&'static str, E
             rng.pick(&paths).clone()
         }
     };
-    let choice = rng.below(30);
+    // the mutations that are specific to PONG / FINDNODE / NODES get extra weight
+    let specific = matches!(w.ty, 2 | 3 | 4) && rng.chance(2, 5);
+    let choice = if specific { 19 } else { rng.below(30) };
     match choice {
         0 => {
             w.trailer = rbytes(rng, 1, 3);
@@ -932,6 +983,10 @@ pub fn mutate(rng: &mut Rng, w: &mut Wire, pool: &[PoolRec]) -> (&'static str, E
                         let k = rng.below(ch.len() as u64) as usize;
                         let paths = all_paths(std::slice::from_ref(&ch[k]));
                         let leaves: Vec<&Vec<usize>> = paths.iter().filter(|p| p.len() == 2).collect();
+                        if leaves.is_empty() {
+                            ch[k] = l(vec![s(&[1])]);
+                            return ("nodes-record-bit-flip", Expect::Reject("invalid record"));
+                        }
                         let p = (*rng.pick(&leaves)).clone();
                         let leaf = node_mut(std::slice::from_mut(&mut ch[k]), &p);
                         if let Kind::Str(b) = &mut leaf.kind {
@@ -1368,11 +1423,12 @@ pub fn case_rng(seed: u64, idx: u64) -> Rng {
 
 pub const HEADER: &str = "From Coq Require Import List NArith.\nImport ListNotations.\nFrom Discv5V Require Import Model.Rlp Model.Rpc Run.Common Run.RpcRun.\nOpen Scope N_scope.";
 
-/// `harness rpcc --seed S --cases N --out DIR [--only I] [--pinned]`
+/// `harness rpcc --seed S --cases N --out DIR [--only I] [--pinned] [--strict-errors]`
 pub fn main(args: &[String]) {
     let o = parse_opts(args);
     let mut only: Option<u64> = None;
-    let mut check_fn = "check_all";
+    let mut pinned = false;
+    let mut strict = false;
     let mut i = 0;
     while i < o.rest.len() {
         match o.rest[i].as_str() {
@@ -1381,12 +1437,27 @@ pub fn main(args: &[String]) {
                 i += 1;
             }
             // compare with the model of the pinned tree (before the repair of D9)
-            "--pinned" => check_fn = "check_all_pinned",
+            "--pinned" => pinned = true,
+            // compare the texts of Error::Custom as well (not only the error kind)
+            "--strict-errors" => strict = true,
             _ => {}
         }
         i += 1;
     }
-    let pool = make_pool(o.seed);
+    let check_fn = match (pinned, strict) {
+        (false, false) => "check_all",
+        (false, true) => "check_all_strict",
+        (true, false) => "check_all_pinned",
+        (true, true) => "check_all_pinned_strict",
+    };
+    if o.rest.iter().any(|a| a == "--print-pool") {
+        // maintenance: prints freshly built records (paste them into FIXED_POOL)
+        for p in build_pool(o.seed) {
+            println!("    \"{}\",", hex::encode(&p.bytes));
+        }
+        return;
+    }
+    let pool = make_pool();
     let mut sum = Summary::new("rpcc");
     for p in &pool {
         sum.hist.add(&format!("pool_record_size:{}", p.bytes.len()));
@@ -1401,8 +1472,20 @@ pub fn main(args: &[String]) {
     };
     for idx in range {
         let mut rng = case_rng(o.seed, idx);
-        let c = build_case(&mut rng, idx, &pool, &mut sum.hist, o.thorough);
-        let r = run_case(idx, &c, &mut sum.hist);
+        // a panic here is a bug of the harness itself (the implementation is called under `catch`
+        // inside run_case): report it with the case index
+        let built = catch(std::panic::AssertUnwindSafe(|| {
+            let c = build_case(&mut rng, idx, &pool, &mut sum.hist, o.thorough);
+            let r = run_case(idx, &c, &mut sum.hist);
+            (c, r)
+        }));
+        let (c, r) = match built {
+            Ok(x) => x,
+            Err(m) => {
+                eprintln!("rpcc: harness bug in case {} (seed {}): {}", idx, o.seed, m);
+                std::process::exit(3);
+            }
+        };
         sum.evaluations += 1;
         sum.steps += 1;
         if r.nontrivial && canon.insert(r.canon) {
